@@ -10,7 +10,7 @@ from vlib import files, gen, oracle
 
 ID = "C17"
 RULE = ("case = (n_frames, n_atoms, history of <=10 operations from {set vectors from a rotated/unrotated description, set lengths+"
-        "angles, set None (whole / lengths only / angles only), index/slice, join, stack, atom_slice, save+load in a cell-storing "
+        "angles, set only the angles or only the lengths of a complete cell, set None (whole / lengths only / angles only), index/slice, join, stack, atom_slice, save+load in a cell-storing "
         "format}); cells: lengths 0.1-50 nm, special angles 60/90/109.47/120, general 45-135deg, near-degenerate (volume factor "
         "down to 1e-3), per-frame variation; oracle = float64 model of (lengths, angles) per frame + geometric identities of the "
         "reported vectors (norms, mutual angles, a||x, b in xy, positive volume, det = abc*sqrt(1-sum cos^2+2 prod cos)); "
@@ -53,11 +53,11 @@ def strategy(draw, tier="quick"):
     ops = []
     nops = draw(st.integers(1, 10))
     for _ in range(nops):
-        name = draw(st.sampled_from(["set_vec", "set_vec", "set_vec", "set_la", "set_la", "none_vec", "none_la", "none_l", "none_a",
+        name = draw(st.sampled_from(["set_vec", "set_vec", "set_vec", "set_la", "set_la", "set_a_only", "set_l_only", "none_vec", "none_la", "none_l", "none_a",
                                      "slice", "slice", "join", "stack", "atom_slice", "saveload"]))
         if name == "set_vec":
             ops.append([name, draw(_cell()), draw(st.one_of(st.none(), st.integers(0, 2 ** 31)))])
-        elif name == "set_la":
+        elif name in ("set_la", "set_a_only", "set_l_only"):
             ops.append([name, draw(_cell())])
         elif name == "slice":
             ops.append([name, draw(st.sampled_from(["int", "neg", "slice", "rev", "list", "mask"])), draw(st.integers(0, 1000))])
@@ -194,6 +194,19 @@ def run_case(case):
                 n_assign += 1
                 distinct = distinct or len(set(op[1]["A"])) == 3
                 labels.append("cell:" + op[1]["kind"])
+            elif name in ("set_a_only", "set_l_only"):
+                # assign just one of the two arrays of a complete cell (the other keeps its values)
+                if mL is None or mA is None:
+                    continue
+                L, A = _per_frame(op[1], n)
+                if name == "set_a_only":
+                    t.unitcell_angles = A
+                    mA = A.astype(np.float32).astype(np.float64)
+                else:
+                    t.unitcell_lengths = L
+                    mL = L.astype(np.float32).astype(np.float64)
+                n_assign += 1
+                distinct = distinct or len(set(op[1]["A"])) == 3
             elif name == "none_vec":
                 t.unitcell_vectors = None
                 mL = mA = None
